@@ -24,7 +24,7 @@ func signedLifecycle(t *testing.T, rep *kit.Report, env kit.Env) {
 		depth = 5
 	}
 	rep.Bounds["signed_lifecycle_depth"] = depth
-	alphabet := []string{"d0", "d1", "d2", "reset-encryption", "key-setup", "idle-61s+cleaner", "idle-61min+cleaner"}
+	alphabet := []string{"d0", "d1", "d2", "reset-encryption", "key-setup", "idle-61s+cleaner", "idle-61min+cleaner", "marked-offline"}
 	k := len(alphabet)
 	word := make([]int, depth)
 	var evals, nontrivial, transitions int64
@@ -46,7 +46,9 @@ func signedLifecycle(t *testing.T, rep *kit.Report, env kit.Env) {
 				sa := a.State().GetSession(b.Identity().IP)
 				var frames [3][]byte
 				for i := range frames {
-					f, err := a.FrameBuilder().NewFrameV1(a.Identity().IP, b.Identity().IP, frame.RouterPing, nil, []byte(fmt.Sprintf("signed-%d", i)), nil)
+					// the three signed message types.
+					mt := []frame.MessageType{frame.RouterPing, frame.RouterHopPing, frame.RouterHopPingDeprecated}[i]
+					f, err := a.FrameBuilder().NewFrameV1(a.Identity().IP, b.Identity().IP, mt, nil, []byte(fmt.Sprintf("signed-%d", i)), nil)
 					if err != nil {
 						panic(err)
 					}
@@ -73,6 +75,10 @@ func signedLifecycle(t *testing.T, rep *kit.Report, env kit.Env) {
 						if err := kit.KeySessions(a, b); err != nil {
 							panic(err)
 						}
+						since = append(since, ev)
+					case "marked-offline":
+						// what the disconnect handler does when the sender announces it is going down.
+						_ = b.State().MarkRouterOffline(a.Identity().IP)
 						since = append(since, ev)
 					case "idle-61s+cleaner", "idle-61min+cleaner":
 						before := b.State().GetSession(a.Identity().IP)
